@@ -123,6 +123,9 @@ func main() {
 		fmt.Fprintf(os.Stderr, "[gosym] %s: paths=%d completed=%d obligations=%d/%d queries=%d violations=%d inconclusive=%d wall=%.1fs (load %.1fs)\n",
 			e, r.Paths, r.Completed, r.Discharged, r.Obligations, r.Queries, len(r.Violations), len(r.Inconclusive), r.WallSec, r.LoadSec)
 	}
+	for _, g := range interp.DeniedSeen() {
+		fmt.Fprintln(os.Stderr, "[gosym] DENIED-GLOBAL-READ", g)
+	}
 	b, _ := json.MarshalIndent(results, "", " ")
 	if *out != "" {
 		os.WriteFile(*out, b, 0o644)
